@@ -121,14 +121,14 @@ var paramFallback = map[string]struct {
 	"skipData": {"bool", 0}, "noControl": {"bool", 0}, "noData": {"bool", 1},
 	"arg": {"reflect.Type", 1}, "input": {"reflect.Type", 0},
 	"completedTasks": {"[]*github.com/cloudwego/eino/compose.task", 0}, "completeTasks": {"[]*github.com/cloudwego/eino/compose.task", 0}, "nextTasks": {"[]*github.com/cloudwego/eino/compose.task", 0},
-	"nodes": {"map[string]*github.com/cloudwego/eino/compose.chanCall", 0},
+	"nodes":  {"map[string]*github.com/cloudwego/eino/compose.chanCall", 0},
 	"err":    {"error", 0},
 	"optMap": {"map[string][]any", 0}, "checkPointID": {"*string", 0},
 	"interruptBeforeNodes": {"[]string", 0},
 	"subGraphInterrupts":   {"map[string]*github.com/cloudwego/eino/compose.subGraphInterruptError", 0},
 	"tasks":                {"[]github.com/cloudwego/eino/compose.toolCallTask", 0},
 	"interruptAfterNodes":  {"*[]string", 1},
-	"key": {"string", 0}, "startNode": {"string", 0}, "endNode": {"string", 1},
+	"key":                  {"string", 0}, "startNode": {"string", 0}, "endNode": {"string", 1},
 }
 
 func paramIndex(fn *ssa.Function, name string) int {
